@@ -7,6 +7,8 @@ CONSTANTS
   Values <- ThoroughValues
   Messages <- GenMessages
   Servers <- GenServers
+  Forms <- GenForms
+  MaxServes = 1
   Deviation = "none"
-INVARIANTS Emit SuccessIff EnvelopeWellFormed ErrorOwnCode UnmarshalableIsError ClientNeverConfuses
+INVARIANTS Emit SuccessIff EnvelopeWellFormed ErrorOwnCode UnmarshalableIsError ClientNeverConfuses ResponseOfCurrentValue
 CHECK_DEADLOCK FALSE
